@@ -89,6 +89,16 @@ else:
 exec(open(os.path.join(os.path.dirname(os.path.abspath(__file__)), 'c18_paths.py')).read())
 
 for v in ck.violations:
+    if v['witness'].get('graph_call') == 'count_triangles':
+        rep = Replay.call({**v['witness'], 'op': 'graph_triangles'})
+        v['native'] = rep
+        v['replayed'] = rep.get('violates')
+        continue
+    if v['witness'].get('graph_call') == 'astar_parallel':
+        rep = Replay.call({**v['witness'], 'op': 'graph_astar_parallel'})
+        v['native'] = rep
+        v['replayed'] = rep.get('violates')
+        continue
     if v['witness'].get('graph_call') in ('find_path', 'find_variable_paths'):
         rep = Replay.call({**v['witness'], 'op': 'graph_find_path' if v['witness']['graph_call'] == 'find_path' else 'graph_variable_paths'})
         v['native'] = rep
